@@ -238,3 +238,81 @@ def contentOrderAgrees (T : Table) (X : Xsd) : Bool :=
     | none => false
 
 end NmlVerif.Schema
+
+namespace NmlVerif.Schema
+open NmlVerif.Binding
+
+/-! ### content models with `all` groups and element-level choices (second pass) -/
+
+/-- one group of the own content model: a `sequence` of element particles, an `xs:all` group (each particle at most
+    once, any order), or a `choice` (exactly one branch; a branch is an element particle with its own occurrence
+    range, and a branch with `minOccurs = 0` may be empty) -/
+inductive XGroup where
+  | seq (es : List XElem)
+  | all (es : List XElem)
+  | choice (es : List XElem)
+deriving Repr, Inhabited
+
+def XGroup.elems : XGroup → List XElem
+  | .seq es => es
+  | .all es => es
+  | .choice es => es
+
+def XGroup.tags (g : XGroup) : List Nat := g.elems.map (·.tag)
+
+def countTag (t : Nat) (w : List Nat) : Nat := (w.filter (· == t)).length
+
+/-- one group against the part of the word that belongs to it -/
+def matchGroup : XGroup → List Nat → Bool
+  | .seq es, w => matchSeq es w
+  | .all es, w => es.all (fun e => decide (e.lo ≤ countTag e.tag w) && decide (countTag e.tag w ≤ 1))
+  | .choice es, w => es.any (fun e => w.all (· == e.tag) && e.okCount w.length)
+
+/-- a sequence of groups with pairwise disjoint tag sets: every group takes the maximal prefix made of its own tags -/
+def matchGroups : List XGroup → List Nat → Bool
+  | [], w => w.isEmpty
+  | g :: gs, w =>
+    let mine := w.takeWhile (fun t => g.tags.contains t)
+    matchGroup g mine && matchGroups gs (w.drop mine.length)
+
+/-- the groups of a type, base types first; `none` when some type of the chain has a wildcard or a nested group the
+    three group kinds do not express -/
+def fullGroups (G : List (Nat × Option (List XGroup))) (X : Xsd) : Nat → Nat → Option (List XGroup)
+  | 0, _ => none
+  | f+1, c =>
+    match findType X c, lookup c G with
+    | some x, some (some gs) =>
+      (match x.base with
+       | some b => (fullGroups G X f b).map (· ++ gs)
+       | none => some gs)
+    | _, _ => none
+
+/-- the group table lists exactly the element particles of the type table, in order (a choice branch carries its OWN
+    occurrence range here, the effective range `0 …` there, so tags are compared); types without a group list are
+    exactly those with a wildcard or a repeated choice over a sequence group -/
+def groupsAgree (G : List (Nat × Option (List XGroup))) (X : Xsd) : Bool :=
+  X.all fun x =>
+    match lookup x.name G with
+    | some (some gs) => (gs.flatMap XGroup.elems).map (·.tag) == x.elems.map (·.tag) && !x.hasAny
+    | some none => x.hasAny || x.interleaved
+    | none => false
+
+/-- attribute declarations of a type, base types first -/
+def fullAttrs (X : Xsd) : Nat → Nat → List XAttr
+  | 0, _ => []
+  | f+1, c =>
+    match findType X c with
+    | none => []
+    | some x => (match x.base with | some b => fullAttrs X f b | none => []) ++ x.attrs
+
+/-- every class writes its attributes (inherited ones first) under the schema's attribute names, in declaration
+    order, pairwise distinct -/
+def attrNamesAgree (T : Table) (X : Xsd) : Bool :=
+  T.all fun k =>
+    match flatten T k.name with
+    | some f => f.attrs.map (·.xml) == (fullAttrs X X.length k.name).map (·.name)
+                && nodupNat (f.attrs.map (·.xml))
+    | none => false
+
+end NmlVerif.Schema
+
